@@ -16,7 +16,8 @@ LEVEL_TEXT = ("Bounded contract on the real xarray_dataset_from_results / load_x
               "the reference denotation; every 1-D root input mapped along an axis is a coordinate on exactly that axis "
               "with the input's values (zipped inputs: one multi-index); outputs without MapSpec are dimensionless / "
               "plain variables; selecting by coordinate value returns the element computed from that input value. "
-              "xarray/pandas objects are outside the proof rung: no deductive part ('exploration').")
+              "xarray/pandas objects are outside the proof rung, so the labelling itself is decided by this bounded exploration "
+              "('exploration'); what is discharged deductively is the wiring of the two entry points, listed next.")
 LEVEL_TEXT += (" Proved part (pyvc): _data_loader - the only place where the two entry points differ: given the results of a run it hands out that run's output, otherwise what load_outputs reads from the folder (load_outputs is an assumed contract; that both hold the same values is C04).")
 LEVEL_TEXT += (" Also proved: pipefunc.map.xarray.load_xarray_dataset (the dataset of a folder is _xarray_dataset on the given MapSpecs and inputs with the loader that reads each value from the folder, for the requested output names or - without a request - all recorded ones, sorted), relative to assumed pure contracts of RunInfo.load, sorted, functools.partial and _xarray_dataset.")
 LEVEL_TEXT += (" And its twin xarray_dataset_from_results (the same _xarray_dataset construction on the pipeline's MapSpecs, defaults | inputs - in this order: given inputs win -, the loader that reads from the results, and all result names, sorted).")
